@@ -74,6 +74,25 @@ Fixpoint postloop (e : expr) (lv : nat) (ts : list tk) : expr * nat * list tk :=
   | _ => (e, lv, ts)
   end.
 
+(* pattern_expr as the right operand of =~ / !~ :
+     concat_expr : regex_pattern | concat_expr PLUS regex_pattern | concat_expr PLUS id_expr
+   taken greedily (it cannot be parenthesised: a regex is not a primary_expr) *)
+Fixpoint pconcat (acc : expr) (ts : list tk) : expr * list tk :=
+  match ts with
+  | TOp OPlus :: TAtom (ARegex s) :: r => pconcat (Bin OPlus acc (Atom (ARegex s))) r
+  | TOp OPlus :: TId x :: r => pconcat (Bin OPlus acc (Id x ENil)) r
+  | _ => (acc, ts)
+  end.
+
+(* the right operand of operator o *)
+Definition rhs_pattern (o : binop) (ts : list tk) : option (expr * list tk) :=
+  if is_match o then
+    match ts with
+    | TAtom (ARegex s) :: r => Some (pconcat (Atom (ARegex s)) r)
+    | _ => None
+    end
+  else None.
+
 (* [pexp f min ts]: an expression all of whose top-level operators have level
    >= min.  [ploop] carries the tree built so far and its syntactic level. *)
 Fixpoint pexp (f : nat) (min : nat) (ts : list tk) : option (expr * list tk) :=
@@ -92,7 +111,10 @@ with ploop (f : nat) (min : nat) (lhs : expr) (lv : nat) (ts : list tk) : option
       match ts with
       | TOp o :: ts' =>
           if Nat.leb min (lvl o) && Nat.leb (lreq o) lv then
-            match pexp f (rreq o) ts' with
+            match (match rhs_pattern o ts' with
+                   | Some x => Some x
+                   | None => pexp f (rreq o) ts'
+                   end) with
             | Some (rhs, ts'') => ploop f min (Bin o lhs rhs) (lvl o) ts''
             | None => None
             end
